@@ -198,7 +198,11 @@ theorem C09_recv (v : Variant) (R : Int) (h : BwOK R) (st : StubSt) (carry : Int
   have hnp : ¬ (R ≤ 0) := by omega
   have htd : Int.tdiv ((p.data.length : Int) * ms) R = (p.data.length : Int) * ms / R :=
     Int.tdiv_eq_ediv_of_nonneg (Int.mul_nonneg (by omega) (by decide))
+  have hR : R ≤ Int.tdiv maxInt64 100 := by
+    have : Int.tdiv maxInt64 100 = 92233720368547758 := by decide
+    omega
   simp only [step, onChunk, bwLoop, hw', hnp, if_false, htd, price, if_true]
+  cases v <;> by_cases hl : (p.data.length : Int) > R * 100 <;> simp [hl, Int.le_of_lt hp, hR]
 
 /-- **C09 (instalments).** Each firing of the 100 ms timer releases exactly the first
 `100·R` bytes of what is left (same timestamp), keeps the rest, and takes 100 ms off the
@@ -209,7 +213,7 @@ theorem C09_instalment (v : Variant) (R : Int) (h : BwOK R) (st : StubSt) (d : I
       some (st, .out ⟨p.data.take (R * 100).toNat, p.ts⟩
         (.bwLoop ⟨p.data.drop (R * 100).toNat, p.ts⟩ (carry - 100 * ms))) ∧
     ∀ p' c' now, step v (.bandwidth R) true st (.out ⟨p.data.take (R * 100).toNat, p.ts⟩ (.bwLoop p' c')) (.taken now)
-      = some (st, bwLoop R p' c' now) := by
+      = some (st, bwLoop v R p' c' now) := by
   obtain ⟨hp, hw⟩ := h
   have hw' : wrap64 (R * 100) = R * 100 := wrap64_id _ (by omega) hw
   constructor
